@@ -10,16 +10,32 @@ VERIF = os.path.dirname(os.path.dirname(os.path.dirname(os.path.abspath(__file__
 REL = {"C01": ["C01", "C08", "C19"], "C03": ["C03", "C05", "C11"], "C04": ["C04", "C11", "C14", "C18"], "C05": ["C05"], "C06": ["C06", "C04", "C19"], "C07": ["C07", "C06"], "C08": ["C08", "C01", "C19"],
        "C09": ["C09", "C18"], "C11": ["C11", "C12"], "C15": ["C15", "C04", "C11"], "C19": ["C19"], "C20": ["C20", "C18"], "C02": ["C02"], "C10": ["C10", "C18"], "C12": ["C12", "C10"],
        "C13": ["C13"], "C14": ["C14", "C05", "C04"], "C16": ["C16"], "C17": ["C17", "C02"], "C18": ["C18"]}
-only = sys.argv[1:]
+own_only = "--own-only" in sys.argv  # re-run only the check of the seed's own property, record it as `final_own`
+only = [a for a in sys.argv[1:] if not a.startswith("--")]
 for sid in sorted(os.listdir(os.path.join(VERIF, "seeded"))):
     if only and sid not in only and sid.split("_")[0] not in only:
         continue
     d = os.path.join(VERIF, "seeded", sid)
     mp = os.path.join(d, "meta.json")
     meta = json.load(open(mp))
-    if "final_run" in meta and not only:
+    if "final_run" in meta and not only and not own_only:
         continue
     props = REL[sid.split("_")[0]]
+    if own_only:
+        if sid == "C09_5":
+            continue  # neutralised (see meta)
+        p = subprocess.run([sys.executable, os.path.join(VERIF, "tools/selftest/seed_run.py"), d, sid.split("_")[0]], stdout=subprocess.PIPE, stderr=subprocess.STDOUT)
+        try:
+            r = json.loads(p.stdout.decode())
+        except Exception:
+            print(sid, "unparsable", p.stdout.decode()[-300:])
+            continue
+        v = r["checks"][sid.split("_")[0]]
+        vl = [l for l in v["lines"] if l.startswith("VIOLATION")]
+        meta["final_own"] = {"exit": v["exit"], "violation_lines": len(vl), "with_failing_input": sum("no-failing-input-found" not in l for l in vl)}
+        json.dump(meta, open(mp, "w"), indent=1)
+        print(sid, meta["final_own"], flush=True)
+        continue
     verify = [] if meta.get("confirmed", {}).get("patched_demo_exit") == 1 else ["--verify"]
     p = subprocess.run([sys.executable, os.path.join(VERIF, "tools/selftest/seed_run.py"), d] + props + verify, stdout=subprocess.PIPE, stderr=subprocess.STDOUT)
     try:
